@@ -146,6 +146,7 @@ func ElemValues(f *Field) []*Val {
 			lbl(&Val{Kind: k, AnyType: "vt.v1.Sub", AnyJSON: []byte(`{"sVal":"x","nVal":"5"}`)}, "sub"),
 			lbl(&Val{Kind: k, AnyType: "vt.v1.Sub", AnyJSON: []byte(`{}`)}, "empty"),
 			lbl(&Val{Kind: k, AnyType: "other.v1.Unknown", AnyJSON: []byte(`{"a":[1,"2",{"b":null}],"c":"é\"q"}`)}, "unknown-type"),
+			lbl(&Val{Kind: k, AnyType: "vt.v1.Sub", AnyJSON: []byte("{\"sVal\":\"<tag> & \u2028\u2029 </tag>\"}")}, "html-and-line-separators"),
 		)
 	case KPbAny:
 		out = append(out,
